@@ -175,7 +175,7 @@ def analyse_arm(fx, rep, b, arm, oracle):
                     el[0] == "call" and isinstance(el[1], str) and "::as_word" in el[1]
                 ):
                     srcs.append(origin(el[2][0]))
-                    inspected.append((origin(el[2][0]), folded(el[2][0]), F.loc(e["span"])))
+                    inspected.append((origin(el[2][0]), folded(el[2][0]), F.loc(e.get("span") or e["scrut"].get("span") or "-")))
                 else:
                     srcs.append(None)
             visit(e["scrut"], env)
@@ -196,7 +196,7 @@ def analyse_arm(fx, rep, b, arm, oracle):
         if k == "If" and e["cond"].get("k") == "Let":
             # `if let (Some(a), Some(b)) = (x.as_word(), y.as_word())`
             let = e["cond"]
-            fake = {"k": "Match", "scrut": let["init"], "arms": [{"pat": let["pat"], "body": e["then"]}]}
+            fake = {"k": "Match", "span": e.get("span"), "scrut": let["init"], "arms": [{"pat": let["pat"], "body": e["then"]}]}
             visit(fake, env)
             if "else" in e:
                 visit(e["else"], env)
